@@ -48,7 +48,11 @@ func (w *World) queryText(o *Obligation, wantModel bool) string {
 			continue
 		}
 		sb.WriteString("; spec " + filepath.Base(sf.Path) + "\n")
-		sb.WriteString(sf.Text + "\n")
+		if o.Cover {
+			sb.WriteString(sf.TextNoAx + "\n")
+		} else {
+			sb.WriteString(sf.Text + "\n")
+		}
 	}
 	for _, d := range w.funDecls {
 		sb.WriteString(d + "\n")
@@ -59,6 +63,9 @@ func (w *World) queryText(o *Obligation, wantModel bool) string {
 	for i, f := range w.facts[:o.NFacts] {
 		if o.Anc != nil && w.factBlock[i] >= 0 && !o.Anc[w.factBlock[i]] {
 			continue
+		}
+		if o.Cover && strings.Contains(f, "(forall ") {
+			continue // covers: dropping facts keeps "unsat => vacuous" valid and lets sat be found quickly
 		}
 		sb.WriteString("(assert " + f + ")\n")
 	}
@@ -132,20 +139,6 @@ func solve(query string, dir, name string, timeoutS, seed int, allSolvers bool) 
 	file := filepath.Join(dir, sanitizeFile(name)+".smt2")
 	_ = os.WriteFile(file, []byte(query), 0o644)
 	var tried []string
-	total := 0.0
-	if !allSolvers {
-		first := timeoutS
-		if first > 4 {
-			first = 4
-		}
-		r := runSolver(context.Background(), solvers[0], file, first, seed)
-		tried = append(tried, fmt.Sprintf("%s:%s:%.2fs", r.Solver, r.Status, r.Seconds))
-		total += r.Seconds
-		if r.Status == "unsat" || r.Status == "sat" {
-			r.Tried = tried
-			return r
-		}
-	}
 	// race all
 	ch := make(chan SolveResult, len(solvers))
 	rctx, rcancel := context.WithCancel(context.Background())
